@@ -77,7 +77,7 @@ func (c c16Case) cause() string {
 	if c.Fault2 != nil {
 		for _, f := range faults {
 			if f.Dir == "H" && f.Msg == 1 {
-				return c16Case{Fault: f}.faultPoint()
+				return "corrupt-H1"
 			}
 		}
 		return c16Case{Fault: c.Fault}.faultPoint()
@@ -394,7 +394,11 @@ func (x *c16Lab) attempt(cse c16Case, noCleanup bool) (succeeded bool) {
 		}
 		l.T.SetHook(faultHook(muts, nil, nil, ap))
 	}
-	out := monitoredCall(callDeadline, call)
+	deadline := callDeadline
+	if cse.Fault.Op == "silent" {
+		deadline = silentDeadline // the peer never answers: the call ends at its context deadline
+	}
+	out := monitoredCall(deadline, call)
 	l.T.SetHook(nil)
 	l.T.FailNextDials(0)
 	r.Eval()
@@ -629,6 +633,8 @@ var c16AbortPoints = []mutation{
 	{Dir: "H", Msg: 1, Op: "rpcerror"},
 	{Dir: "H", Msg: 1, Op: "trunc-wire"},
 	{Dir: "R", Msg: 0, Op: "trunc-wire"},
+	{Dir: "H", Msg: 0, Op: "silent"},
+	{Dir: "R", Msg: 1, Op: "silent"},
 }
 
 func c16Ops(kind string) []string {
@@ -641,9 +647,15 @@ func c16Ops(kind string) []string {
 	return out
 }
 
-func (x *c16Lab) corruptTable() []mutation {
+func (x *c16Lab) corruptTable(inputs string) []mutation {
 	// record one clean exchange to learn the message shapes
 	rec := newRecorded()
+	if inputs == "unconfirmed" {
+		if _, err := x.sweep(); err != nil {
+			x.fail("sweep", err)
+			return nil
+		}
+	}
 	var existing *rhp.ContractRevision
 	if x.rpc != "form" {
 		c, err := x.pool.take()
@@ -661,10 +673,16 @@ func (x *c16Lab) corruptTable() []mutation {
 		x.fail("recording exchange", fmt.Errorf("%v %v", err, out.Err))
 		return nil
 	}
+	if x.l.RenterNode != x.l.HostNode {
+		if txns := x.l.RenterNode.CM.V2PoolTransactions(); len(txns) > 0 {
+			x.l.HostNode.CM.AddV2PoolTransactions(x.l.RenterNode.CM.Tip(), txns)
+		}
+	}
 	if err := x.l.Mine(types.VoidAddress, 1); err != nil {
 		x.fail("mine", err)
 		return nil
 	}
+	x.releaseAll()
 	var out2 []mutation
 	for _, d := range []rhpmitm.Dir{rhpmitm.RenterToHost, rhpmitm.HostToRenter} {
 		for i := 0; i < 2; i++ {
@@ -747,7 +765,7 @@ func (x *c16Lab) releaseAll() {
 }
 
 func runC16(r *mon.Run, replay string) {
-	r.Rule("fault table = RPC {form, renew, refresh-full, refresh-partial} x abort point {clean, stream cannot be opened, cut before/after the request, cut before/after the host inputs, injected RPCError, cut before/after the renter signatures, cut before/after / truncated final response} x basis relation {same tip, renter 1..3 blocks behind, renter on a stale fork of depth 1..3 unknown to / known by the host} x renter inputs {confirmed, one unconfirmed output with its parent}; plus every field of every message in both directions (reflection walk) x operator {flip low/high bit, zero, max, +1, -1, truncate, extend, duplicate, swap neighbours, nil pointer, other resolution type} at the same tip; plus storms of 20 consecutive aborts at one abort point followed by a clean attempt; thorough adds every abort point at every basis relation and PRNG double corruptions. Two chain managers (host, renter) are kept in sync by the lab except where the basis relation says otherwise. Enumerated completely; a case is non-trivial when it is a clean/abort case or its corruption changed the wire bytes.")
+	r.Rule("fault table = RPC {form, renew, refresh-full, refresh-partial} x abort point {clean, stream cannot be opened, cut before/after the request, cut before/after the host inputs, injected RPCError, cut before/after the renter signatures, cut before/after / truncated final response, silent host, renter signatures swallowed} x basis relation {same tip, renter 1..3 blocks behind, renter on a stale fork of depth 1..3 unknown to / known by the host} x renter inputs {confirmed, one unconfirmed output with its parent}; plus every field of every message in both directions (reflection walk) x operator {flip low/high bit, zero, max, +1, -1, truncate, extend, duplicate, swap neighbours, nil pointer, other resolution type} at the same tip; plus storms of 20 consecutive aborts at one abort point followed by a clean attempt; thorough adds every abort point at every basis relation, the field table for the message shapes with an unconfirmed renter parent, and PRNG double corruptions. Two chain managers (host, renter) are kept in sync by the lab except where the basis relation says otherwise. Enumerated completely; a case is non-trivial when it is a clean/abort case or its corruption changed the wire bytes.")
 	r.Assume("core consensus and rhp/v4 cost functions are trusted; the in-repo EphemeralContractor/WalletStore are the host's and wallets' stores")
 	r.Assume("a failure seen by the renter after its signatures reached the host may legitimately coincide with a host-side commit (the final response cannot be made atomic); it is then checked as a host-side success")
 	r.Extra("exhaustive", true)
@@ -778,11 +796,11 @@ func runC16(r *mon.Run, replay string) {
 	}
 	var jobs []job
 	for _, rpc := range rpcs {
-		for _, part := range []string{"abort-same", "abort-basis-a", "abort-basis-b", "corrupt-R0", "corrupt-R1", "corrupt-H0", "corrupt-H1a", "corrupt-H1b", "corrupt-double", "storm"} {
+		for _, part := range []string{"abort-same", "abort-basis-a", "abort-basis-b", "corrupt-R0", "corrupt-R1", "corrupt-H0", "corrupt-H1a", "corrupt-H1b", "corrupt-R0u", "corrupt-H1u", "corrupt-double", "storm"} {
 			if only != nil && only.RPC != rpc {
 				continue
 			}
-			if part == "corrupt-double" && !r.Thorough() {
+			if (part == "corrupt-double" || strings.HasSuffix(part, "u")) && !r.Thorough() {
 				continue
 			}
 			if flt := os.Getenv("VERIF_C16_JOBS"); flt != "" && !strings.Contains(flt, rpc+":"+part) {
@@ -819,31 +837,35 @@ func runC16(r *mon.Run, replay string) {
 				}
 				for _, inputs := range []string{"confirmed", "unconfirmed"} {
 					for _, p := range c16AbortPoints {
-						if basis != "same" && !r.Thorough() && (p.Op == "trunc-wire" || (p.Op == "cut-after" && p.Dir == "H" && p.Msg == 1)) {
+						if basis != "same" && !r.Thorough() && (p.Op == "trunc-wire" || p.Op == "silent" || (p.Op == "cut-after" && p.Dir == "H" && p.Msg == 1)) {
 							continue
 						}
 						x.attempt(c16Case{RPC: j.rpc, Fault: p, Basis: basis, Inputs: inputs, Phase: "abort"}, false)
 					}
 				}
 			}
-		case "corrupt-R0", "corrupt-R1", "corrupt-H0", "corrupt-H1a", "corrupt-H1b":
+		case "corrupt-R0", "corrupt-R1", "corrupt-H0", "corrupt-H1a", "corrupt-H1b", "corrupt-R0u", "corrupt-H1u":
 			dir, msg := j.part[8:9], int(j.part[9]-'0')
+			inputs := "confirmed"
+			if strings.HasSuffix(j.part, "u") {
+				inputs = "unconfirmed" // thorough: the shapes with a renter parent transaction
+			}
 			n := 0
-			for _, mu := range x.corruptTable() {
+			for _, mu := range x.corruptTable(inputs) {
 				if mu.Dir != dir || mu.Msg != msg {
 					continue
 				}
 				n++
 				// the final host message is the largest: its table is split over two labs
-				if len(j.part) == 11 && (n%2 == 0) != (j.part[10] == 'a') {
+				if (strings.HasSuffix(j.part, "a") || strings.HasSuffix(j.part, "b")) && (n%2 == 0) != strings.HasSuffix(j.part, "a") {
 					continue
 				}
-				x.attempt(c16Case{RPC: j.rpc, Fault: mu, Basis: "same", Inputs: "confirmed", Phase: "corrupt"}, false)
+				x.attempt(c16Case{RPC: j.rpc, Fault: mu, Basis: "same", Inputs: inputs, Phase: "corrupt"}, false)
 			}
 		case "corrupt-double":
-			tbl := x.corruptTable()
+			tbl := x.corruptTable("confirmed")
 			rng := r.RNG(uint64(3000 + i))
-			for k := 0; k < 250 && len(tbl) > 1; k++ {
+			for k := 0; k < 400 && len(tbl) > 1; k++ {
 				a, b := tbl[rng.IntN(len(tbl))], tbl[rng.IntN(len(tbl))]
 				if a == b {
 					continue
@@ -855,7 +877,7 @@ func runC16(r *mon.Run, replay string) {
 			for _, p := range c16AbortPoints {
 				// only abort points at which the renter's signatures cannot
 				// have reached the host: the attempt must leave no trace
-				if p.Op == "none" || p.Op == "trunc-wire" || (p.Msg == 1 && !(p.Dir == "R" && p.Op == "cut")) {
+				if p.Op == "none" || p.Op == "trunc-wire" || p.Op == "silent" || (p.Msg == 1 && !(p.Dir == "R" && p.Op == "cut")) {
 					continue
 				}
 				x.storm(p, 20)
